@@ -32,15 +32,17 @@ CHECKS = {
                      'symbolically on schema families whose member name, type (27 builtins + user types), minOccurs/maxOccurs (on the member and on the '
                      'enclosing particle), attribute use and declaration order are symbolic selectors; for every path z3 decides whether some assignment '
                      'makes an emitted struct differ from the reference model (exactly one PascalCase struct per component, one field per declared member in '
-                     'order, snake_case raw-escaped identifier, T / Option<T> / Vec<T> with T from the pinned table). Models are replayed on the native binary. '
+                     'order, snake_case raw-escaped identifier, T / Option<T> / Vec<T> with T from the pinned table). Families also cover type / element names that PascalCase changes or that '
+                     'look like builtins, and content models that are not a plain sequence (choice or xs:all as the content model, annotations among the particles). Models are replayed on the native binary. '
                      'The thorough tier adds the Kani harness of the builtin table over all byte strings per length.',
-                note='trusted: SMI environment models (validated against the native binary each run), the reference model in smi/oracles.py; bounded to the scenario shapes (<=4 members, one nesting level)'),
+                note='trusted: SMI environment models (validated against the native binary each run), the reference model in smi/oracles.py; bounded to the scenario shapes (<=4 members, one nesting level); two known findings (member after a nested sequence, annotation among the particles of a sequence)'),
     'C11': dict(engine='E2-smi', cat='model_checking', design='4/C11',
                 technique='symbolic execution of the import-following reader MIR over symbolic import graphs; reachability as a z3 formula; native replay',
                 text='One symbolic exploration of XmlReader::read_xml / read_xml_internal / read_xsd / process_import / RustDocument::extend covers every import '
                      'multigraph over the stated number of files (target of every import slot and the start file are symbolic). Per path z3 decides whether some '
                      'graph makes the emitted components differ from graph reachability (each reachable file once, nothing unreachable, no file parsed that is '
-                     'unreachable), and non-termination shows as bounded-depth divergence; counterexample graphs are replayed on the native binary.',
+                     'unreachable), and non-termination shows as bounded-depth divergence; counterexample graphs are replayed on the native binary. The file-collection half (utils.rs) is '
+                     'explored through the CLI over a model of the file system: an unreachable sibling that is absent / a schema / malformed / not XML / unreadable must not change exit status or bytes.',
                 note='trusted: SMI environment models; graphs bounded to 3 files x 2 slots (quick); thorough adds 4 x 1, 2 x 3 and 3 x 2 with missing targets; divergence bound 60 frames'),
     'C12': dict(engine='E2-smi', cat='model_checking', design='4/C12',
                 technique='symbolic execution of reader + emitter MIR with symbolic HashMap iteration orders, file registration orders and call histories',
@@ -51,15 +53,17 @@ CHECKS = {
     'C08': dict(engine='E2-smi', cat='model_checking', design='4/C08',
                 technique='symbolic execution of reader + emitter MIR over extension forests with symbolic declaration order; z3 per-path oracle queries; native replay',
                 text='Extension chains (depth 1..2, empty extension, attributes inside xs:extension and on the base, sequence+choice content, a decoy type whose local '
-                     'names equal the base names, base in another namespace/file) are explored with the declaration order as a symbolic permutation; z3 decides '
+                     'names equal the base names, global elements named like the base types, base in another namespace/file, a chain over three files, a diamond import, equal local '
+                     'names in two namespaces) are explored with the declaration order as a symbolic permutation; z3 decides '
                      'per path whether the derived struct differs from base members followed by own members (names, kinds, types, declaring namespace).',
-                note='trusted: SMI environment models, reference model of xs:extension in lib/e2props.py; depth <= 2, one file or two files'),
+                note='trusted: SMI environment models, reference model of xs:extension in lib/e2props.py; depth <= 2, one to four files'),
     'C09': dict(engine='E2-smi', cat='model_checking', design='4/C09',
                 technique='symbolic execution of reader + emitter MIR over name-colliding schemas with symbolic reference prefixes and declaration order',
                 text='Two namespaces define complexTypes of the same local name with different members; the prefix of type= and base= references and the '
-                     'declaration order are symbolic, and one prefix is bound to different namespaces in different files. z3 decides per path whether a field type '
+                     'declaration order are symbolic, one prefix is bound to different namespaces in different files, the target namespace gets its only prefix on a nested element, and a '
+                     'root prefix is bound again on a nested element. z3 decides per path whether a field type '
                      'or an inherited member list belongs to the namespace the prefix denotes.',
-                note='trusted: SMI environment models; two namespaces / two files; complexType references only (message parts: C05)'),
+                note='trusted: SMI environment models; two or three namespaces / files; complexType references only (message parts: C05); one known finding (prefix bound again on a nested element)'),
     'C03': dict(engine='E2-smi', cat='other', design='4/C03',
                 technique='symbolic execution of reader + emitter MIR; z3 decides the annotation obligations (prefix bound in the containing struct, unqualified attributes, rename) per path',
                 text='Claimed at annotation level only: the XML itself is produced by yaserde/xml-rs at run time, out of reach of both engines. zeep determines the wire format only '
@@ -108,11 +112,11 @@ CHECKS = {
                 note='trusted: models of clap / std::path / std::fs in lib/e2props.py; real OS behaviour (permissions, symlinks, non-UTF-8 names) is outside'),
     'C13': dict(engine='E2-smi', cat='model_checking', design='4/C13',
                 technique='symbolic execution of reader + emitter MIR in departure mode: every attribute / element optional, QNames retargetable, bounded number of departures; panics and divergence are outcomes',
-                text='On documents that exercise every reader branch, each attribute and each non-root element may be missing and each QName-valued attribute may dangle or point at its own '
+                text='On documents that exercise every reader branch, each attribute and each non-root element may be missing, each attribute value may be empty or blank, and each QName-valued attribute may dangle or point at its own '
                      'component (at most 1 departure at a time in the quick tier, 2 in the thorough tier); the interpreter treats unwrap/expect/assert/index/overflow panics and call-depth '
                      'divergence as path outcomes and z3 yields the departure set of every such path, which is replayed on the native binary. Also: unregistered start file, a message part '
                      'naming a non-element component. Import cycles are decided by C11.',
-                note='trusted: SMI environment models; roxmltree itself (only "parse fails" is modelled for malformed text); inputs are departures from three base documents; time is counted in MIR steps, not seconds'),
+                note='trusted: SMI environment models; roxmltree itself (only "parse fails" is modelled for malformed text); inputs are departures from three (quick) / four base documents; time is counted in MIR steps, not seconds'),
     'C14': dict(engine='E1-kani + E2-smi', cat='model_checking', design='4/C14',
                 technique='Kani/CBMC on rename_keywords over all identifier strings per length; symbolic execution of the emitters with a Rust lexer run over the symbolic output (z3 decides token-structure independence)',
                 text='(E1) rename_keywords is decided for every identifier-shaped string of 1..10 bytes against the edition-2024 keyword list. (E2) Fourteen places where schema text flows into '
